@@ -30,6 +30,12 @@ class MachineryError(Exception):
     """Something other than educe went wrong (exit code 2, never a verdict)."""
 
 
+def shash(x):
+    """stable hash for deterministic enumeration choices (Python's hash() is salted per process)"""
+    import zlib
+    return zlib.crc32(repr(x).encode())
+
+
 def log(*a):
     print(*a, file=sys.stderr, flush=True)
 
